@@ -1,5 +1,6 @@
 import SunriseVerif.Model.CLBook
 import SunriseVerif.Spec.C04
+import SunriseVerif.Model.TickKey
 /-!
 C04 — pool liquidity bookkeeping matches the set of open positions.
 Theorems over the bookkeeping abstraction `CLBook` (unbounded operation sequences, arbitrary integers):
@@ -349,6 +350,60 @@ theorem inRange_spec (cur lo hi : Int) : S_inRange_spec cur lo hi := by
 theorem cross_conventions (lim fee net : Sunrise.Dec) (t : Int) : S_cross_conventions lim fee net t := by
   simp [S_cross_conventions, Sunrise.Gen.KernelsCL.qfb_GetLiquidityDeltaSign, Sunrise.Gen.KernelsCL.qfb_NextTickAfterCrossing,
     Sunrise.Gen.KernelsCL.bfq_GetLiquidityDeltaSign, Sunrise.Gen.KernelsCL.bfq_NextTickAfterCrossing, Sunrise.Dec.neg]
+
+open Sunrise.TickKey in
+/-- the tick key encoding is strictly order-preserving on the whole int64 range, so the store's byte-ordered iterators
+    visit initialised ticks in tick order (what the swap loop's NextTickIterator relies on) -/
+theorem tick_key_order (a b : Int) (ha : I64_MIN ≤ a ∧ a ≤ I64_MAX) (hb : I64_MIN ≤ b ∧ b ≤ I64_MAX) :
+    a < b ↔ keyLt (encode a) (encode b) := by
+  unfold keyLt encode I64_MIN I64_MAX TWO64 at *
+  by_cases h1 : a < 0 <;> by_cases h2 : b < 0 <;> simp only [h1, h2, if_true, if_false]
+  · -- both negative: same prefix, payload a + 2^64 vs b + 2^64
+    have ea : (((a + 18446744073709551616).toNat : Nat) : Int) = a + 18446744073709551616 := Int.toNat_of_nonneg (by omega)
+    have eb : (((b + 18446744073709551616).toNat : Nat) : Int) = b + 18446744073709551616 := Int.toNat_of_nonneg (by omega)
+    constructor
+    · intro h; right; exact ⟨trivial, by omega⟩
+    · intro h; rcases h with h | ⟨_, h⟩
+      · omega
+      · omega
+  · -- a negative, b non-negative: 'N' < 'P'
+    constructor
+    · intro _; left; decide
+    · intro _; omega
+  · -- a non-negative, b negative: never
+    constructor
+    · intro h; omega
+    · intro h; rcases h with h | ⟨h, _⟩
+      · exact absurd h (by decide)
+      · exact absurd h (by decide)
+  · have ea : ((a.toNat : Nat) : Int) = a := Int.toNat_of_nonneg (by omega)
+    have eb : ((b.toNat : Nat) : Int) = b := Int.toNat_of_nonneg (by omega)
+    constructor
+    · intro h; right; exact ⟨trivial, by omega⟩
+    · intro h; rcases h with h | ⟨_, h⟩
+      · omega
+      · omega
+
+open Sunrise.TickKey in
+/-- decoding inverts encoding on the int64 range -/
+theorem tick_key_roundtrip (a : Int) (ha : I64_MIN ≤ a ∧ a ≤ I64_MAX) : decode (encode a) = some a := by
+  unfold decode encode I64_MIN I64_MAX TWO64 at *
+  by_cases h1 : a < 0
+  · simp only [h1, if_true]
+    have e : (((a + 18446744073709551616).toNat : Nat) : Int) = a + 18446744073709551616 := Int.toNat_of_nonneg (by omega)
+    simp only [e]
+    have : a + 18446744073709551616 ≥ 9223372036854775808 := by omega
+    simp only [this, if_true]
+    have h3 : ¬ (a + 18446744073709551616 - 18446744073709551616 ≥ 0) := by omega
+    have h4 : a + 18446744073709551616 - 18446744073709551616 = a := by omega
+    simp [h3, h4]
+    exact h1
+  · simp only [h1, if_false]
+    have e : ((a.toNat : Nat) : Int) = a := Int.toNat_of_nonneg (by omega)
+    simp only [e]
+    have : ¬ (a ≥ 9223372036854775808) := by omega
+    simp only [this, if_false]
+    simp [h1]
 
 /-- non-vacuity: a reachable state with two overlapping positions, a crossing and a partial withdrawal -/
 example : Reachable (step (step (step (step (init 0) (.add (-5) 5 100)) (.add 3 9 40)) (.crossUp 3)) (.decrease 1 30)) := by
